@@ -96,6 +96,14 @@ func runOne(ctx context.Context, s solverSpec, script string, wantModel bool, ti
 	_ = cmd.Run()
 	el := time.Since(start).Seconds()
 	text := out.String()
+	// skip solver warnings preceding the verdict
+	for strings.HasPrefix(text, "WARNING") {
+		i := strings.Index(text, "\n")
+		if i < 0 {
+			break
+		}
+		text = text[i+1:]
+	}
 	first := strings.TrimSpace(strings.SplitN(text, "\n", 2)[0])
 	r := Result{Solver: s.name, Time: el, Output: text}
 	switch {
